@@ -102,6 +102,13 @@ def run_shard(shard, tier, seed, wd, res):
                     s.op("%s.%s" % (fam, op), ta, mk(b))
             s.op(fam + ".mul", ta, ta)
             s.op(fam + ".eq", ta, ta)
+            s.op(fam + ".ne", ta, ta)
+            # equality / inequality against elements that differ in exactly one coefficient
+            for i_ in {0, n - 1, rng.randrange(n)}:
+                a2 = list(a)
+                a2[i_] = (a2[i_] + 1) % Q
+                s.op(fam + ".eq", ta, mk(a2))
+                s.op(fam + ".ne", ta, mk(a2))
         for op in ("zero", "one"):
             s.op("%s.%s" % (fam, op))
     elif part == "frob":
